@@ -84,7 +84,9 @@ func cmdSweep(args []string) error {
 	return Emit(R)
 }
 
-const swRetention = 10 * 24 * time.Hour
+// a fractional retention_days (2.5 days = 60 h); the youngest "old enough looking" marker is 0.9 of it (54 h)
+const swRetentionDays = 2.5
+const swRetention = 60 * time.Hour
 
 func swValue(e swEntry, now time.Time) []byte {
 	switch e.Kind {
@@ -99,7 +101,7 @@ func swValue(e swEntry, now time.Time) []byte {
 		case 1:
 			return MakeRaw(uint64(time.Now().UnixNano()), uint64(e.V), 1, 0, nil) // fresh
 		}
-		return MakeRaw(uint64(now.Add(-swRetention/2).UnixNano()), uint64(e.V), 1, 0, nil)
+		return MakeRaw(uint64(now.Add(-swRetention*9/10).UnixNano()), uint64(e.V), 1, 0, nil)
 	}
 	return nil
 }
@@ -165,7 +167,7 @@ func replaySweep(R *Result, in swInput, beh []swStep, bi int) error {
 	}
 	l := logrus.New()
 	l.SetLevel(logrus.PanicLevel)
-	sw := sweeper.New("default", config.Sweeper{Enabled: true, RetentionDays: 10, LockDuration: time.Nanosecond, ReleaseDuration: time.Microsecond}, env, l, native)
+	sw := sweeper.New("default", config.Sweeper{Enabled: true, RetentionDays: swRetentionDays, LockDuration: time.Nanosecond, ReleaseDuration: time.Microsecond}, env, l, native)
 	g := &sweepGate{parked: make(chan struct{}), resume: make(chan struct{})}
 	sweepMu.Lock()
 	sweepGates[swept] = g
@@ -389,7 +391,7 @@ func cmdSweepFree(args []string) error {
 		}
 		l := logrus.New()
 		l.SetLevel(logrus.PanicLevel)
-		sw := sweeper.New("default", config.Sweeper{Enabled: true, RetentionDays: 10, LockDuration: time.Nanosecond, ReleaseDuration: 200 * time.Microsecond}, env, l, true)
+		sw := sweeper.New("default", config.Sweeper{Enabled: true, RetentionDays: swRetentionDays, LockDuration: time.Nanosecond, ReleaseDuration: 200 * time.Microsecond}, env, l, true)
 		touched := map[string]bool{}
 		var tmu sync.Mutex
 		stop := make(chan struct{})
